@@ -779,7 +779,7 @@ def run_step(impl, idx, a, op):
             if shares(arrays_of(idx), arrays_of(other)):
                 st.problems.append(("C06", "append:aliases-operand", "receiver shares row-id storage with the appended index"))
         elif o == "update":
-            ents = {tuple(k): F.rowids(rows, "update-rowids", allow=("view", "int64", "list", "readonly")) for k, rows in op["entries"]}
+            ents = {tuple(k): F.rowids(rows, "update-rowids", allow=("view", "view", "int64", "list", "readonly")) for k, rows in op["entries"]}
             operands.append(("entries", ents, snap(ents)))
             b = a.copy()
             for k, rows in op["entries"]:
@@ -791,9 +791,9 @@ def run_step(impl, idx, a, op):
                 st.problems.append(("C06", "update:aliases-operand", "receiver shares row-id storage with the update dict"))
         elif o in ("union", "inter", "diff"):
             if op.get("as_index"):
-                ents = {tuple(k): F.rowids(rows, "setop-index-rowids", allow=("view", "readonly")) for k, rows in op["other"]}
+                ents = {tuple(k): F.rowids(rows, "setop-index-rowids", allow=("view", "view", "readonly")) for k, rows in op["other"]}
             else:
-                ents = {tuple(k): (None if rows is None else F.rowids(rows, "setop-dict-rowids", allow=("view", "int64", "list", "readonly"))) for k, rows in op["other"]}
+                ents = {tuple(k): (None if rows is None else F.rowids(rows, "setop-dict-rowids", allow=("view", "view", "int64", "list", "readonly"))) for k, rows in op["other"]}
             other = impl.iindex({k: v for k, v in ents.items()}, rng_common(op), tuple(st.before["shape"])) if op.get("as_index") else ents
             operands.append(("other", other, snap(other)))
             cur = {tuple(k): set(rows) for k, rows in st.before["entries"]}
